@@ -7,7 +7,7 @@ program tokens:
   | call E <k> A1..Ak   (A = `?` or E) | spart <builtin> <k> A1..Ak | par E | smap E E | forEach E E | filter E E
   | foldL E E E | foldR E E E | pairs E E E | sortK <0|1 case-insensitive collation> E E | slit <k> <cp1>..<cpk> | nan | inf+ | inf- | negz | apply E <k> E1..Ek
   (argument order as in XPath: forEach S F, foldL S Z F, pairs S1 S2 F, sortK S F, apply F [M…])
-Answer:  model=<result> flags=<stale><scope><arity><focus> spec=<result>
+Answer:  model=<result> flags=<stale><scope><arity> spec=<result>
 result: items separated by `,` (`()` for the empty sequence): integers, `D<n>` / `E<n>` for an
 integer-valued decimal / double, `true`/`false`, `F` for a function item; `ERR:<code>` for an error.
 -/
@@ -153,7 +153,7 @@ def answer (line : String) : String :=
       let cfg : Cfg := { share := cs.getD 0 '0' == '1', leak := cs.getD 1 '0' == '1', lexical := cs.getD 2 '0' == '1' }
       let o := implEval cfg fuel p
       let f := o.flags
-      s!"model={showRes o.result} flags={bit f.stale}{bit f.scope}{bit f.arity}{bit f.focus} spec={showRes (specEval fuel p)}"
+      s!"model={showRes o.result} flags={bit f.stale}{bit f.scope}{bit f.arity} spec={showRes (specEval fuel p)}"
     | _ => "bad-program"
   | _, _ => "bad-line"
 
